@@ -455,5 +455,5 @@ def strategy():
 
 
 def campaign(col, tier, seed, shard, nshards):
-    n = 4000 if tier == "quick" else 64000
+    n = 4000 if tier == "quick" else 480000
     hyp_campaign(col, strategy(), run_case, max(n // nshards, 100), seed * 100 + shard)
